@@ -100,9 +100,17 @@ def _prune(keep):
     except FileNotFoundError:
         return
     ents.sort(key=lambda p: os.path.getmtime(p))
+    now = time.time()
     while len(ents) > 24:
         victim = ents.pop(0)
         if victim == keep:
+            continue
+        try:
+            if now - os.path.getmtime(victim) < 1800:
+                # touched within the last half hour: another check running
+                # at the same time may be using it
+                break
+        except OSError:
             continue
         shutil.rmtree(victim, ignore_errors=True)
 
